@@ -5,7 +5,7 @@ import numpy as np
 
 PROPERTY = "C17"
 LEVEL = "model_checking"
-BUDGET = {"quick": 200, "thorough": 2400}
+BUDGET = {"quick": 200, "thorough": 1200}
 BOUNDS = {
     "quick": "two-slice templates with 1-2 hidden variables per slice plus observations (cards 2-3), one or two interface nodes, intra and inter edges; "
              "1-2 symbolic CPDs (all symbolic on the HMM template), the rest fixed rationals; query times 0..3, evidence on interface and "
